@@ -348,6 +348,9 @@ def strata(tier, seed):
             for box in single:
                 cs.append(dict(shape=[n], box=[box], ms=[2, 9], seed=seed))
                 cs.append(dict(shape=[n, 3], box=[box] * 2, ms=[2, 9], seed=seed))
+    for box in (['sym1'], ['asym']):
+        cs.append(dict(shape=[6], box=box, ms=[130, 200, 257], few=True, seed=seed))           # re-sampling onto large grids
+        cs.append(dict(shape=[4, 3], box=box * 2, ms=[130], few=True, seed=seed))
     for n in (9, 16, 17, 33):
         for box in (['sym1'], ['asym'], ['unit']):
             cs.append(dict(shape=[n], box=box, ms=[2, n + 3], few=True, seed=seed))
